@@ -180,7 +180,7 @@ Definition dbg_step (c : cfg) (v : ienv) : ienv * status :=
                     i_done := i_done v; i_p2sh := false; i_p2shstack := i_p2shstack v; i_succ := i_succ v; i_tce := None;
                     i_operational := i_operational v |}, SErr)
             | ser :: rest =>
-                let e1 := {| e_script := ser; e_cb := Some ser; e_stack := rest; e_alt := e_alt e; e_cond := e_cond e;
+                let e1 := {| e_script := ser; e_cb := Some ser; e_stack := rest; e_alt := []; e_cond := e_cond e;
                              e_ops := 0; e_pos := e_pos e; e_ed := e_ed e; e_err := e_err e |} in
                 ({| i_e := e1; i_pc := ser; i_hist := i_hist v; i_seq := i_seq v + 1; i_done := i_done v; i_p2sh := false;
                     i_p2shstack := i_p2shstack v; i_succ := i_succ v; i_tce := None; i_operational := i_operational v |}, SOk)
@@ -190,8 +190,9 @@ Definition dbg_step (c : cfg) (v : ienv) : ienv * status :=
       else match i_succ v with
       | _ :: _ =>
           let s := i_succ v in
+          if MAX_SCRIPT_SIZE <? zlen s then (upd v (set_err e SCRIPT_ERR_SCRIPT_SIZE) [], SErr) else
           let isp := p2sh_shape (c_flags c) s in
-          let e1 := {| e_script := s; e_cb := Some s; e_stack := e_stack e; e_alt := e_alt e; e_cond := e_cond e;
+          let e1 := {| e_script := s; e_cb := Some s; e_stack := e_stack e; e_alt := []; e_cond := e_cond e;
                        e_ops := 0; e_pos := e_pos e; e_ed := e_ed e; e_err := e_err e |} in
           ({| i_e := e1; i_pc := s; i_hist := i_hist v; i_seq := i_seq v + 1; i_done := i_done v; i_p2sh := isp;
               i_p2shstack := if isp then e_stack e else i_p2shstack v; i_succ := []; i_tce := None;
